@@ -14,6 +14,14 @@
 #include <utility>
 
 #if ADA_INCLUDE_URL_PATTERN
+#ifdef ADA_URL_ADA_VERIF
+namespace ada::verif {
+// When true, url_pattern_component::compile() never takes the literal /
+// wildcard / empty shortcuts (verification builds only).
+inline bool force_regexp_components = false;
+}  // namespace ada::verif
+#endif
+
 namespace ada {
 
 inline bool url_pattern_init::operator==(const url_pattern_init& other) const {
@@ -178,6 +186,14 @@ url_pattern_component<regex_provider>::compile(
     }
   }
 
+#ifdef ADA_URL_ADA_VERIF
+  // Verification hook: force every component through the regular-expression
+  // path so that shortcut and regex executions of a pattern can be compared.
+  if (ada::verif::force_regexp_components) {
+    component_type = url_pattern_component_type::REGEXP;
+    exact_match_value.clear();
+  }
+#endif
   // For simple patterns, skip regex generation and compilation entirely
   if (component_type != url_pattern_component_type::REGEXP) {
     auto pattern_string =
